@@ -1,6 +1,6 @@
 SPECIFICATION FairSpec
 CONSTANTS
-  NCalls = 24
+  NCalls = 25
   MaxLen = 2
 PROPERTY HistoryDone
 PROPERTY ModesEventuallyRestored
